@@ -47,9 +47,10 @@ def fields_of(out):
 
 # ----------------------------------------------------------------------------- one batch: impl, model, oracle
 def _dumpable(line):
-    """cover-tree cases whose tree the driver can read back exactly (integer distances): the real tree is dumped,
-    certificate-checked (wfTree) and the Lean model of the batch query is run on it"""
-    return " method=covertree " in line and " sh=" not in line and " metric=L2 " not in line
+    """cover-tree cases whose tree the driver can read back exactly (integer distances, or integers scaled by 2^-sh):
+    the real tree is dumped, certificate-checked (wfTree), the Lean model of the batch query is run on it and the
+    Lean model of batch_create must build the same tree"""
+    return " method=covertree " in line and " metric=L2 " not in line
 
 
 def _run_chunk(ctx, binary, lines, brief):
